@@ -138,6 +138,7 @@ type Cluster struct {
 	MaxReplyDelay      time.Duration // responses are delayed by a random time up to this (reorders them)
 	PermuteMulti       bool          // permute ResultOrException inside a region action result
 	ReverseMulti       bool          // list ResultOrException in reverse request order
+	ZeroScannerID      bool          // the first scanner opened on a user table gets id 0 (ids are arbitrary 64-bit values)
 	PBResults          bool          // send results inside protobuf instead of cellblocks
 	EchoResults        bool          // mutations answer with cells derived from the request
 	ZKErr              func() error  // non-nil error => ZK lookup fails
